@@ -76,16 +76,21 @@ Proof.
 Qed.
 
 (* ------------------------------------------------------------------ the result of one iteration *)
-Definition ret_ok (s' : vsock) (r : poll_result) : Prop :=
+(* the environment of the poll: the clock (env.now()) and the path limit of the scripted transport;
+   a Pending poll leaves both alone *)
+Definition envp (s : vsock) : Z * option Z := (v_env_now s, v_emsg_limit s).
+
+Definition ret_ok (e0 : Z * option Z) (s' : vsock) (r : poll_result) : Prop :=
   match r with
   | PollReadyErr e => allowed strict e /\ vs_xe ti tm qT s'
   | PollPanic => False
-  | _ => vs_x ti tm 0 qT s'
+  | PollPending => vs_x ti tm 0 qT s' /\ envp s' = e0
+  | PollReadyOk => vs_x ti tm 0 qT s'
   end.
 
-Definition br_ok (R : vsock -> Prop) (b : body_res (CC:=CC)) : Prop :=
+Definition br_ok (R : vsock -> Prop) (e0 : Z * option Z) (b : body_res (CC:=CC)) : Prop :=
   match b with
-  | BrReturn s' r => ret_ok s' r
+  | BrReturn s' r => ret_ok e0 s' r
   | BrRestart s' => R s'
   | BrPanic => False
   end.
@@ -96,17 +101,17 @@ Proof. intros [p H]. exists p. eapply x_weaken; [|exact H]. unfold qT; auto. Qed
 Lemma x_qT p q (s : vsock) : vs_x ti tm p q s -> vs_x ti tm p qT s.
 Proof. apply x_weaken. unfold qT; auto. Qed.
 
-Lemma die_ok (R : vsock -> Prop) q (s : vsock) e : allowed strict e -> vs_xe ti tm q s -> br_ok R (die s e).
+Lemma die_ok (R : vsock -> Prop) e0 q (s : vsock) e : allowed strict e -> vs_xe ti tm q s -> br_ok R e0 (die s e).
 Proof.
   intros Ha [p Hx]. unfold die. cbn [br_ok ret_ok]. split; [exact Ha|].
   exists p. apply just_before_death_x. eapply x_qT; exact Hx.
 Qed.
 
-Lemma bail_ok {A} (R : vsock -> Prop) q (m : step A) (k : vsock -> A -> body_res) (Q : vsock -> A -> Prop) :
+Lemma bail_ok {A} (R : vsock -> Prop) e0 q (m : step A) (k : vsock -> A -> body_res) (Q : vsock -> A -> Prop) :
   spx strict m Q (vs_xe ti tm q) ->
   (forall s a, Q s a -> v_restart s = true -> R s) ->
-  (forall s a, Q s a -> v_restart s = false -> br_ok R (k s a)) ->
-  br_ok R (bail m k).
+  (forall s a, Q s a -> v_restart s = false -> br_ok R e0 (k s a)) ->
+  br_ok R e0 (bail m k).
 Proof.
   intros Hm Hr Hk. unfold bail. destruct m as [s a|s e|]; cbn [spx] in Hm.
   - destruct (v_restart s) eqn:Er; [cbn [br_ok]; eapply Hr; eauto|eapply Hk; eauto].
@@ -114,12 +119,12 @@ Proof.
   - destruct Hm.
 Qed.
 
-Lemma pend_ok {A} (R : vsock -> Prop) q (m : step A) (k : vsock -> A -> body_res) (Q : vsock -> A -> Prop) :
+Lemma pend_ok {A} (R : vsock -> Prop) e0 q (m : step A) (k : vsock -> A -> body_res) (Q : vsock -> A -> Prop) :
   spx strict m Q (vs_xe ti tm q) ->
   (forall s a, Q s a -> v_restart s = true -> R s) ->
-  (forall s a, Q s a -> vs_x ti tm 0 qT s) ->
-  (forall s a, Q s a -> v_restart s = false -> v_transport_pending s = false -> br_ok R (k s a)) ->
-  br_ok R (pend m k).
+  (forall s a, Q s a -> vs_x ti tm 0 qT s /\ envp s = e0) ->
+  (forall s a, Q s a -> v_restart s = false -> v_transport_pending s = false -> br_ok R e0 (k s a)) ->
+  br_ok R e0 (pend m k).
 Proof.
   intros Hm Hr Hp Hk. unfold pend. eapply bail_ok; [exact Hm|exact Hr|].
   intros s a HQ Er. destruct (v_transport_pending s) eqn:Ep.
@@ -129,7 +134,7 @@ Qed.
 
 (* ------------------------------------------------------------------ the small steps of the body *)
 Definition body_rel (s s' : vsock) : Prop :=
-  v_restart s' = v_restart s /\ v_now s' = v_now s /\ v_env_now s' = v_env_now s /\
+  v_restart s' = v_restart s /\ v_now s' = v_now s /\ envp s' = envp s /\
   ss_mono (v_ss s) (v_ss s').
 
 Lemma body_rel_refl s : body_rel s s.
@@ -144,14 +149,17 @@ Qed.
 Lemma ctl_body_rel s s' : ctl_rel s s' -> body_rel s s'.
 Proof.
   intros (((C1&C2&C3&C4&C5&C6&C7&C8&C9&C10&C11&C12&C13&C14) & Hf & Hr) & Hq & He).
-  unfold body_rel, ss_mono. rewrite C4. repeat (split; [assumption|]). lia.
+  unfold body_rel, ss_mono, envp. rewrite C4, C11, He. repeat (split; [first [assumption|reflexivity]|]). lia.
 Qed.
 
 Lemma loop_body_rel s s' : loop_rel s s' -> body_rel s s'.
-Proof. unfold loop_rel, body_rel. tauto. Qed.
+Proof. unfold loop_rel, body_rel, envp. intros (A1&A2&A3&A4&A5&A6&A7). rewrite A3, A6. tauto. Qed.
 
 Lemma tx_body_rel s s' : tx_rel s s' -> body_rel s s'.
-Proof. unfold tx_rel, body_rel, ss_mono. intros (_ & A2 & A3 & A4 & A5). rewrite A3. repeat (split; [assumption|]). lia. Qed.
+Proof.
+  unfold tx_rel, body_rel, ss_mono, envp. intros ((_&_&_&_&_&_&A1) & A2 & A3 & A4 & A5).
+  rewrite A1, A3, A5. repeat (split; [first [assumption|reflexivity]|]). lia.
+Qed.
 
 Lemma ctl_set_t_ack_delay (s : vsock) x : ctl_rel s (set_t_ack_delay s x).
 Proof. unfold ctl_rel, send_frame, same_core, emsg_free. vsimpl. repeat split; tauto. Qed.
@@ -186,6 +194,9 @@ Proof.
   intros (H1 & H2 & H3) Hc. split; [eapply x_ctl; eauto|]. split; [eapply ef_ctl; eauto|].
   eapply body_rel_trans; [exact H3|apply ctl_body_rel; exact Hc].
 Qed.
+
+Lemma mb_pending q sB (s : vsock) : mb q sB s -> vs_x ti tm 0 qT s /\ envp s = envp sB.
+Proof. intros (H & _ & (_ & _ & E & _)). split; [eapply x_qT; exact H|exact E]. Qed.
 
 Lemma maybe_send_syn_ack_x q (s : vsock) :
   vs_x ti tm 0 q s -> ef strict s ->
@@ -234,13 +245,13 @@ Definition dss (ss : segsizes) : Z := max_ss ss - min_ss ss.
 
 (* what a restart leaves behind, relative to the state s0 the iteration started from *)
 Definition restart_R (q : Z -> Prop) (s0 s' : vsock) : Prop :=
-  strict = false /\ vs_x ti tm 0 qF s' /\ v_env_now s' = v_env_now s0 /\
+  strict = false /\ vs_x ti tm 0 qF s' /\ envp s' = envp s0 /\
   exists ssm zp z, ss_ok ssm /\ ss_mono (v_ss s0) ssm /\ (q zp \/ PB ssm zp) /\ 0 <= z /\
     ((q z \/ PB ssm z) \/ z <= min_ss ssm) /\ v_ss s' = disarm_cooldown (on_probe_failed ssm z).
 
 Lemma poll_body_x q (s0 : vsock) :
   vs_x ti tm 0 q s0 -> 0 <= v_env_now s0 <= SAMPLE_BOUND -> ef strict s0 ->
-  br_ok (restart_R q s0) (poll_body cci s0).
+  br_ok (restart_R q s0) (envp s0) (poll_body cci s0).
 Proof.
   intros Hx0 Hclk Hef0. unfold poll_body.
   set (sB := set_restart (set_now (set_transport_pending s0 false) (v_env_now s0)) false).
@@ -248,7 +259,7 @@ Proof.
   { split; [exact (proj1 Hx0)|]. unfold sx, sB. vsimpl. split; [exact (proj1 (proj2 Hx0))|exact Hclk]. }
   assert (HefB : ef strict sB) by exact Hef0.
   assert (HrB : v_restart sB = false) by reflexivity.
-  assert (HeB : v_env_now sB = v_env_now s0) by reflexivity.
+  assert (HeB : envp sB = envp s0) by reflexivity.
   assert (HsB : v_ss sB = v_ss s0) by reflexivity.
   clearbody sB.
   assert (Hnr : forall s : vsock, body_rel sB s -> v_restart s = true -> restart_R q s0 s).
@@ -256,7 +267,7 @@ Proof.
   (* 1. the SYN-ACK *)
   eapply pend_ok with (q := q); [apply maybe_send_syn_ack_x; assumption| | |].
   { intros s a [(_ & _ & Hb) _]. apply Hnr. exact Hb. }
-  { intros s a [(H & _) _]. eapply x_qT; exact H. }
+  { intros s a [H _]. rewrite <- HeB. eapply mb_pending; exact H. }
   intros s1 u1 [Hm1 Hst1] _ Hp1. specialize (Hst1 Hp1).
   (* 2. the immediate ACK *)
   eapply pend_ok with (q := q) (Q := fun s (_ : bool) => mb q sB s /\ v_state s <> SynReceived).
@@ -265,7 +276,7 @@ Proof.
     - intros s b Hc. split; [eapply mb_ctl; eauto|]. rewrite (ctl_state _ _ Hc). exact Hst1.
     - intros s Hc. eapply x_xe, x_ctl; [exact (proj1 Hm1)|exact Hc]. }
   { intros s a [(_ & _ & Hb) _]. apply Hnr. exact Hb. }
-  { intros s a [(H & _) _]. eapply x_qT; exact H. }
+  { intros s a [H _]. rewrite <- HeB. eapply mb_pending; exact H. }
   intros s2 u2 [(Hx2 & Hef2 & Hb2) Hst2] _ _.
   (* 3. the incoming messages *)
   eapply pend_ok with (q := q) (Q := fun s (_ : unit) => mb q sB s).
@@ -273,7 +284,7 @@ Proof.
     intros s u (A1 & A2 & A3). split; [exact A1|]. split; [exact A2|].
     eapply body_rel_trans; [exact Hb2|apply loop_body_rel; exact A3]. }
   { intros s a (_ & _ & Hb). apply Hnr. exact Hb. }
-  { intros s a (H & _). eapply x_qT; exact H. }
+  { intros s a H. rewrite <- HeB. eapply mb_pending; exact H. }
   intros s3 u3 (Hx3 & Hef3 & Hb3) _ _.
   (* 4. flush *)
   destruct (rx_flush (v_rx s3)) as [[rx1 fr] w] eqn:Efl.
@@ -293,7 +304,8 @@ Proof.
     destruct Hb4 as (E1 & _). rewrite Er, E1, HrB in Hr. discriminate. }
   intros s5 u5 (Hx5 & Hef5 & Hsr5 & Hmono5 & Hnow5 & Henv5) Hr5.
   assert (Hb5 : body_rel sB s5).
-  { eapply body_rel_trans; [exact Hb4|]. unfold body_rel. destruct Hsr5 as (_&_&_&_&_&_&_&_&Er). auto. }
+  { eapply body_rel_trans; [exact Hb4|]. destruct Hsr5 as (_&_&_&_&_&El&_&_&Er).
+    unfold body_rel, envp. rewrite El, Henv5. auto. }
   (* 6. send_tx_queue *)
   set (q5 := fun z => q z \/ PB (v_ss s5) z) in *.
   eapply pend_ok with (q := q5) (Q := fun s (_ : unit) => stq_post strict ti tm 0 q5 s5 s).
@@ -302,13 +314,18 @@ Proof.
     - exfalso. destruct Ht as (_ & E2 & _). rewrite E2, Hr5 in Hr. discriminate.
     - destruct A5 as (_ & Hns & zp & z & Z1 & Z0 & Z2 & Z3 & Z4).
       unfold restart_R. split; [exact Hns|]. split; [exact Z4|].
-      split; [rewrite A4; destruct Hb5 as (_ & _ & E & _); congruence|].
+      split; [destruct A2 as (_&_&_&_&_&_&Al); destruct Hb5 as (_ & _ & E & _);
+              unfold envp in *; rewrite A4, Al; congruence|].
       exists (v_ss s5), zp, z.
       destruct (inv_parts _ _ _ _ (proj1 Hx5)) as (_ & _ & _ & _ & _ & K6 & _).
       split; [exact K6|]. split; [destruct Hb5 as (_ & _ & _ & E); rewrite <- HsB; exact E|].
       split; [exact Z1|]. split; [exact Z0|]. split; [|exact Z3].
       destruct Z2 as [Z2|Z2]; [left; exact Z2|right; exact Z2]. }
-  { intros s a [(H & _)|(_ & _ & _ & _ & (_ & _ & zp & z & _ & _ & _ & _ & H))]; eapply x_qT; exact H. }
+  { assert (He5 : envp s5 = envp s0) by (destruct Hb5 as (_ & _ & E & _); congruence).
+    intros s a [(H & _ & Ht)|(_ & A2 & _ & E & (_ & _ & zp & z & _ & _ & _ & _ & H))].
+    - split; [eapply x_qT; exact H|]. destruct (tx_body_rel _ _ Ht) as (_ & _ & E & _). congruence.
+    - split; [eapply x_qT; exact H|]. destruct A2 as (_&_&_&_&_&_&Al).
+      unfold envp in *. rewrite E, Al. exact He5. }
   intros s6 u6 Hpost Hr6 _.
   assert (H6 : TQX strict ti tm 0 q5 s5 s6).
   { destruct Hpost as [H|(_ & _ & _ & _ & (Hr & _))]; [exact H|]. rewrite Hr in Hr6. discriminate. }
@@ -328,24 +345,24 @@ Proof.
     - intros s b [Hc _]. eapply mb_ctl; eauto.
     - intros s [Hc _]. eapply x_xe, x_ctl; [exact (proj1 Hm7)|exact Hc]. }
   { intros s a (_ & _ & Hb). apply Hnr. exact Hb. }
-  { intros s a (H & _). eapply x_qT; exact H. }
+  { intros s a H. rewrite <- HeB. eapply mb_pending; exact H. }
   intros s8 u8 Hm8 _ _.
   eapply pend_ok with (q := q5) (Q := fun s (_ : bool) => mb q5 sB s).
   { eapply spx_weaken; [apply maybe_send_ack_x| |].
     - intros s b Hc. eapply mb_ctl; eauto.
     - intros s Hc. eapply x_xe, x_ctl; [exact (proj1 Hm8)|exact Hc]. }
   { intros s a (_ & _ & Hb). apply Hnr. exact Hb. }
-  { intros s a (H & _). eapply x_qT; exact H. }
-  intros s9 u9 (Hx9 & _ & _) _ _.
-  pose proof (x_qT _ _ _ Hx9) as Hx9T.
+  { intros s a H. rewrite <- HeB. eapply mb_pending; exact H. }
+  intros s9 u9 Hm9 _ _. destruct (mb_pending _ _ _ Hm9) as (Hx9T & He9). rewrite HeB in He9.
   (* 8. the end of the iteration *)
   destruct (state_is_closed _ _).
   { cbn [br_ok ret_ok]. apply just_before_death_x. exact Hx9T. }
   set (sa := if is_local_fin_or_later (v_state s9) then _ else s9).
-  assert (Ha : vs_x ti tm 0 qT sa) by (unfold sa; destruct (is_local_fin_or_later _); exact Hx9T).
+  assert (Ha : vs_x ti tm 0 qT sa /\ envp sa = envp s0)
+    by (unfold sa; destruct (is_local_fin_or_later _); (split; [exact Hx9T|exact He9])).
   clearbody sa.
   destruct (next_timer_to_poll sa) as [sb t] eqn:En.
-  assert (Hbq : vs_x ti tm 0 qT sb).
+  assert (Hbq : vs_x ti tm 0 qT sb /\ envp sb = envp s0).
   { unfold next_timer_to_poll in En. destruct (v_transport_pending sa); injection En as <- _; exact Ha. }
   cbn [br_ok ret_ok]. destruct t; [|exact Hbq].
   unfold arm_in. destruct (_ <=? 0); unfold add_wakes; exact Hbq.
@@ -378,7 +395,7 @@ Proof. reflexivity. Qed.
 Lemma poll_loop_x : forall (fuel : nat) (s : vsock),
   vs_x ti tm 0 qF s -> 0 <= v_env_now s <= SAMPLE_BOUND -> ef strict s ->
   dss (v_ss s) < 2 ^ (Z.of_nat fuel - 1) -> (1 <= fuel)%nat ->
-  let '(s', r) := poll_loop cci fuel s in ret_ok s' r.
+  let '(s', r) := poll_loop cci fuel s in ret_ok (envp s) s' r.
 Proof.
   induction fuel as [|f IH]; intros s Hx Hclk Hef Hd Hf; [lia|].
   rewrite poll_loop_S. pose proof (poll_body_x qF s Hx Hclk Hef) as Hb.
@@ -389,7 +406,8 @@ Proof.
   destruct M1 as (M1 & M2); [unfold qF; tauto|].
   assert (Hf1 : (1 <= f)%nat).
   { destruct f; [|lia]. cbn in Hd. lia. }
-  apply IH; [exact Hx'|rewrite Henv; exact Hclk|unfold ef; rewrite Hns; discriminate| |exact Hf1].
+  assert (He : v_env_now s' = v_env_now s) by (unfold envp in Henv; congruence).
+  rewrite <- Henv. apply IH; [exact Hx'|rewrite He; exact Hclk|unfold ef; rewrite Hns; discriminate| |exact Hf1].
   replace (Z.of_nat (S f) - 1) with (Z.succ (Z.of_nat f - 1)) in Hd by lia.
   rewrite Z.pow_succ_r in Hd by lia. lia.
 Qed.
@@ -397,20 +415,22 @@ Qed.
 (* VirtualSocket::poll: the 64 iterations of fuel are never exhausted *)
 Theorem poll_x (s : vsock) :
   vs_x ti tm 0 qT s -> 0 <= v_env_now s <= SAMPLE_BOUND -> ef strict s ->
-  let '(s', r) := poll cci s in ret_ok s' r.
+  let '(s', r) := poll cci s in ret_ok (envp s) s' r.
 Proof.
   intros Hx Hclk Hef. unfold poll.
   set (s1 := set_arm_in (set_wakes (set_out s []) []) None).
   assert (Hx1 : vs_x ti tm 0 qT s1) by exact Hx.
   assert (Hclk1 : 0 <= v_env_now s1 <= SAMPLE_BOUND) by exact Hclk.
   assert (Hef1 : ef strict s1) by exact Hef.
+  change (envp s) with (envp s1).
   clearbody s1. change 64%nat with (S 63). remember 63%nat as f63 eqn:E63. rewrite poll_loop_S.
   pose proof (poll_body_x qT s1 Hx1 Hclk1 Hef1) as Hb.
   destruct (poll_body cci s1) as [s' r|s'|]; cbn [br_ok] in Hb; [exact Hb| |destruct Hb].
   pose proof Hb as (Hns & Hx' & Henv & _).
   destruct (inv_parts _ _ _ _ (proj1 Hx1)) as (_ & _ & _ & _ & _ & K6 & _).
   destruct (restart_measure qT s1 s' K6 Hb) as (M0 & _).
-  apply poll_loop_x; [exact Hx'|rewrite Henv; exact Hclk1|unfold ef; rewrite Hns; discriminate| |subst f63; lia].
+  assert (He : v_env_now s' = v_env_now s1) by (unfold envp in Henv; congruence).
+  rewrite <- Henv. apply poll_loop_x; [exact Hx'|rewrite He; exact Hclk1|unfold ef; rewrite Hns; discriminate| |subst f63; lia].
   subst f63. unfold dss, ss_ok, U16_MAX in *. change (Z.of_nat 63 - 1) with 62.
   assert (65535 < 2 ^ 62) by (vm_compute; reflexivity). lia.
 Qed.
